@@ -2,9 +2,19 @@ import vlib
 
 class P(vlib.Prop):
     id = "C14"
-    rule = ("stage multiarch: the real multi-architecture entry point (build.NewMultiArch + BuildPackageLists, i.e. APK.ResolveWorld with its ByArch siblings) on families of "
-            "per-architecture repositories that drifted apart (2-4 of amd64, arm64, arm/v7, arm/v6, riscv64, s390x; newest version missing somewhere, newer build only here, package only here), "
-            "reached as local directories, over HTTP with an ETag and over HTTP without one; every architecture's install list is judged by the verified validator foreign_check. "
+    rule = ("stage multiarch: the real multi-architecture entry point (build.NewMultiArch, then every context's APK.ResolveWorld with its ByArch siblings, then MultiArch.BuildPackageLists) on families of "
+            "per-architecture repositories that drifted apart: 2-5 of apko's nine architectures (half of the families contain BOTH arm/v6 and arm/v7, which always drift; an architecture may be listed twice), "
+            "1-3 drifts per architecture out of: version missing, newer build only here, package only here, rebuilt under the next -rN, a twin version that compares equal (1.0 next to 1.0-r0, before or after), "
+            "a provider of a virtual name only here (with or without a version, other priority), a package that stops providing the virtual name here, another index order, an EMPTY index, an install_if package only here; "
+            "optionally a second, pinned repository; reached as local directories, over HTTP with an ETag and over HTTP without one. Corpus first: C14-F2 replays (fixed), both ARM variants lagging / ahead in turn, "
+            "three and five architectures with one lagging, an architecture listed twice, an empty index, virtual providers on one side, versions equal up to -rN, the c14_same_world_same_versions_refuted witness, "
+            "C14-F1 through the wiring, pinned repositories. Observed: every context's ByArch map (key -> architecture of the APK stored there), the world file, every architecture's install list, the joined answer. "
+            "In Coq (check_wiring): the ByArch maps must be the model's by_arch_of (key function read from the source) with no sibling dropped; every architecture's ordered list must EQUAL Model/MultiArch.resolve_arch "
+            "(wiring + Model/Resolver.v); BuildPackageLists must equal the model's; the verified validator foreign_check runs on the IMPLEMENTATION's lists. "
+            "stage dqcache: histories of 2-4 GetPackagesWithDependencies(allArchs) calls in one process over a pool of index objects (library API): the same grouping repeated, the pool regrouped into other architectures with "
+            "the same concatenation (finding C08-F2, both orders, also with an architecture that has no indexes), a republished index (new object, same name and source), three architectures resolved in turn; observed per call: "
+            "the answer, the set the cache holds under the call's key, the uncached disqualifyDifference with its messages (hook). In Coq (check_history): all three must equal the model (dq_cache_get, dq_objs, dq_reasons); "
+            "foreign_check / single-architecture-unaffected on the implementation's answers, tagged dq-cache-key-ignores-grouping exactly when an earlier call used the key with another grouping. "
             "stage c14: corpus first (C14-F1 replay, also through a chain of install_if packages, newer build on one architecture only, a package missing three dependency levels deep over three architectures, "
             "a provider available on one side only, single architecture with and without install_if additions), then families of per-architecture universes: a generated base universe (as in C02's "
             "general stream; a quarter with install_if packages; a third with an explicit dependency chain c0 -> ... -> cN, N = 2..4, whose newest LEAF is missing on "
@@ -18,21 +28,32 @@ class P(vlib.Prop):
     stages = (
         dict(name="c14", cmd="c02", args=lambda t, s: ["-stage", "c14"]),
         dict(name="multiarch", cmd="c14", args=lambda t, s: ["-stage", "multiarch"]),
+        dict(name="dqcache", cmd="c14", args=lambda t, s: ["-stage", "dqcache"]),
     )
     coq_targets = ["Properties/C14.vo", "Corr/C14.vo"]
+    watch = ("pkg/build/multi.go", "pkg/apk/apk/repo.go", "pkg/apk/apk/implementation.go", "pkg/apk/apk/shameful_global_caches.go", "pkg/build/types/types.go")
     assumptions = (
-        "byArch is a list of (architecture, universe) with distinct architecture names (Go: map[string][]NamedIndex); the resolver under test was built from the very index objects listed under its architecture",
-        "the disqualification CACHE is not modelled: theorems speak about a fresh disqualifyDifference; the cache key ignores the grouping by architecture (finding C08-F2, reachable through the library API only) — see C08",
-        "MultiArch.BuildPackageLists / ResolveWorld wiring (ByArch) is not exercised here; the public resolver API is called with the allArchs map directly",
+        "wiring theorems: the ByArch keys of the requested architectures are distinct (proved for apko's nine architectures, c14_byarch_keys_distinct; an arbitrary Architecture string is its own key as long as the key expression is String()) "
+        "and every architecture's index objects are its own (repos_separate: no sibling's GetRepositoryIndexes returns an object the resolver was built from, objects of one list pairwise different)",
+        "which index objects GetRepositoryIndexes returns is an input of the model (own / load); the index cache that decides it belongs to C08/C19; the world handed to the resolver is what GetWorld returns (sorted, without duplicates)",
+        "c14_dq_symmetric_complete / c14_filtered_members_multi / c14_same_world_same_versions_* speak about a resolution that starts from an EMPTY disqualification cache; c14_cache_hit_same_grouping shows that any earlier history "
+        "in which the call's key was used by the same grouping only hands out the same members; another grouping with the same concatenation does not (c14_cache_other_grouping_refuted = finding C08-F2, library API only)",
+        "inside one BuildPackageLists the per-architecture calls run concurrently and share the process-wide cache; their maps are the same grouping of the same objects or contain fresh objects, so the model computes every answer from an empty cache",
+        "the cache key of indexes with EQUAL names follows map iteration (and, from 12 indexes on, an unstable sort); the dqcache stage uses pairwise different names inside every call",
+        "messages: %q of a printable ASCII string without quote or backslash is the string between double quotes (the generators use only such names); which lacking sibling a message names follows map iteration: the observed message must be one of the model's",
         "everything C02 assumes about the resolver model (map iteration, errors as a boolean)",
     )
-    level_text = ("c14_dq_complete (disqualify_difference marks exactly the packages whose name+version another architecture lacks), c14_filtered_members (a member inside the "
-                  "initial set can only be an install_if package), c14_no_foreign_version_partial (no install_if in the universe => no member is missing elsewhere) and "
-                  "c14_single_arch_unaffected hold for all per-architecture universes and worlds (unbounded); c14_no_foreign_version is REFUTED by a kernel-checked "
-                  "witness (finding C14-F1, replayed on the real code); the model is tied to the code by differential comparison over generated families of diverging universes.")
-    level_note = ("trusted: Coq kernel, goextract, Go harness/printer; modelled not verified: the Go text of disqualifyDifference and of the resolver; the caches and the "
-                  "MultiArch wiring are outside this check; correspondence is differential testing, not proof")
+    level_text = ("c14_dq_complete / c14_dq_symmetric_complete (for every number and order of architectures the set a resolution starts from is exactly: some OTHER requested architecture lacks this name+version — through NewMultiArch's ByArch map, "
+                  "ResolveWorld's sibling loop and disqualifyDifference on package objects), c14_byarch_keys_distinct + c14_no_sibling_dropped (finite enumeration over types.AllArchs read from the source), c14_filtered_members(_multi) "
+                  "(a member that is not an install_if package is available at that version on every requested architecture), c14_no_foreign_version_partial, c14_single_arch_unaffected, c14_cache_hit_same_grouping, "
+                  "c14_dq_reason_names_a_lacking_sibling, c14_same_world_same_versions_partial hold for all inputs (unbounded); REFUTED by kernel-checked witnesses replayed on the real code: c14_no_foreign_version / "
+                  "c14_filtered_members_multi without the install_if proviso (finding C14-F1), c14_cache_other_grouping (finding C08-F2), c14_same_world_same_versions (two architectures offering the same packages install "
+                  "lib-1.0-r0 and lib-1.0: equal-comparing versions, first candidate wins — availability, which is what the property states, is not violated); c14_source_shape pins the source shapes the wiring model transcribes; "
+                  "the model is tied to the code by goextract (key expression, AllArchs, loop shapes, message format) and by differential comparison through the real NewMultiArch / ResolveWorld / BuildPackageLists and through call histories.")
+    level_note = ("trusted: Coq kernel, goextract, Go harness/printer; modelled not verified: the Go text of NewMultiArch, ResolveWorld, disqualifyDifference, disqualifyCache.Get and of the resolver (shape-checked by goextract, compared by "
+                  "differential testing, not proved); the index cache behind GetRepositoryIndexes is an input; correspondence is differential testing, not proof")
     design_ref = "DESIGN.md 7 C14, Appendix A.1"
-    modelled_not_verified = ("disqualifyDifference and the resolver functions listed under C02 are modelled by hand in Model/Resolver.v; globalDisqualifyCache and pkg/build/multi.go are not modelled")
+    modelled_not_verified = ("NewMultiArch, APK.ResolveWorld, disqualifyDifference, disqualifyCache.Get and GetPackagesWithDependencies' use of it are modelled by hand in Model/MultiArch.v over the resolver of Model/Resolver.v "
+                             "(functions listed under C02); BuildLayers / the index cache / world-file handling are not modelled")
 
 PROP = P()
